@@ -165,8 +165,9 @@ func (r *request) encode() ([]byte, string) {
 }
 
 type response struct {
-	Status int
-	Stats  []int64 // nil when the headers are absent
+	Status   int
+	Stats    []int64 // nil when the headers are absent
+	Panicked bool
 }
 
 func post(h http.Handler, r *request) response {
@@ -175,7 +176,19 @@ func post(h http.Handler, r *request) response {
 	req.Header.Set("Content-Type", ct)
 	req.Header.Set("Content-Encoding", "snappy")
 	rec := httptest.NewRecorder()
-	h.ServeHTTP(rec, req)
+	panicked := func() (p bool) {
+		defer func() {
+			if x := recover(); x != nil {
+				p = true
+			}
+		}()
+		h.ServeHTTP(rec, req)
+		return false
+	}()
+	if panicked {
+		// the handler panicked: no status the protocol knows (fails agree and holds)
+		return response{Status: 999, Panicked: true}
+	}
 	res := response{Status: rec.Code}
 	hs := rec.Header()
 	a, b, c := hs.Get("X-Prometheus-Remote-Write-Samples-Written"), hs.Get("X-Prometheus-Remote-Write-Histograms-Written"), hs.Get("X-Prometheus-Remote-Write-Exemplars-Written")
